@@ -1,12 +1,12 @@
 #!/bin/sh
-# tools/verify_seed.sh <ID> <n>: confirm a seeded change from /tmp/seed-<ID>/mut<n> in a fresh scratch worktree of /repo's HEAD:
+# tools/verify_seed.sh <ID> <n> [root=/tmp/seed]: confirm a seeded change from <root>-<ID>/mut<n> in a fresh scratch worktree of /repo's HEAD:
 # demo passes without it, fails with it, the existing suite still passes with it.  Writes verify.json next to it; removes the worktree.
-id="$1"; n="$2"; wt=/tmp/wtv-$id-$n; sd=/tmp/seed-$id/mut$n
+id="$1"; n="$2"; root="${3:-/tmp/seed}"; wt=/tmp/wtv-$id-$n; sd=$root-$id/mut$n
 git -C /repo worktree remove --force $wt 2>/dev/null
 git -C /repo worktree add -q --detach $wt HEAD || exit 2
 cp /repo/src/execnet/_version.py $wt/src/execnet/_version.py
 cd $sd
-sed "s#/tmp/wt-$id#$wt#g" demo.py > demo_v.py
+sed -e "s#/tmp/wt-$id#$wt#g" -e "s#/tmp/wt2-$id#$wt#g" demo.py > demo_v.py
 PYTHONPATH=$wt/src timeout 600 /venv/bin/python demo_v.py > demo_clean.log 2>&1; rc_clean=$?
 (git -C $wt apply $sd/patch.diff 2>/dev/null || (cd $wt && patch -p1 -F3 -s --no-backup-if-mismatch < $sd/patch.diff)) || { echo "{\"applies\": false}" > verify.json; git -C /repo worktree remove --force $wt; exit 1; }
 PYTHONPATH=$wt/src timeout 600 /venv/bin/python demo_v.py > demo_mut.log 2>&1; rc_mut=$?
